@@ -500,3 +500,32 @@ CHECKS["C12"] = {
         {"name": "TestRegression_.*", "quick": {}, "thorough": {}},
     ],
 }
+
+CHECKS["C10"] = {
+    "pkg": "./c10/",
+    "level": "exploration",
+    "technique": "property-based testing (rapid): generated series sets + SQL tag conditions parsed by the production parser, executed through the in-process root/leaf query path over generated flush/compaction/restart histories; brute-force reference evaluation + metamorphic relation between index states",
+    "rule": ("case = 5-200 series of 1-3 metrics (shared/missing keys, values sharing prefixes/suffixes, unicode, '*', quotes, commas, per-series uid) in 1-5 write batches, "
+             "2-4 conditions generated as SQL text (=, !=, <>, like/not like with x*, *x, *x*, x, *, **; in/not in; =~/!~; and/or/parentheses, generated depth <= 4, also unparenthesised chains), "
+             "history of <= 16 steps (write, bare PrepareFlush, full/meta/index/data flush of all or some shards, synchronous compaction of the dictionary/index kv families with or without obsolete-file deletion, "
+             "graceful restart, re-write of known series); every condition is checked after every step: group by uid = brute force, group by (uid,k)/(k)/(k1,k2) values and point counts, same answer as in earlier states of the same data. "
+             "non-trivial = at some checkpoint the condition selects a non-empty proper subset, has >= 2 atoms, >= 1 atom is like/regex/negated, and the index is not purely in memory (a file exists or a PrepareFlush is pending); "
+             "distinct = hash(series, conditions, history). TestTagFilterManySeries (thorough): one metric with 65536+N or 131072+N series, tagged series at every container boundary."),
+    "level_text": ("Generated-input and generated-history exploration: each case runs 20-60 statements through the production parser, root planner, leaf pipeline, dictionaries, posting lists, forward index and grouping, "
+                   "in memory / prepared / flushed / two-files / compacted / restarted / mixed index states (states are classified from the real file counts), and compares with an independent brute-force model."),
+    "level_note": ("Trusted: sim/node loop-back transport, Go regexp as the regex semantics (the memory path uses rp.Match). `like` semantics taken from index/kv_store.go (no documentation exists): one leading/trailing '*' is a wild card. "
+                   "A negated atom selects series that have the key and do not match. Informational only: conditions over a key no series of the metric carries (lindb answers 'tag key not found'), "
+                   "groups of series lacking a grouping key. not-found errors == empty answer. Operator precedence of unparenthesised and/or chains is taken from the parser (same precedence, left associative)."),
+    "assumptions": ["one writer goroutine; a series lives in exactly one shard (shard chosen by the generator, not by the routing hash)",
+                    "tag values are valid UTF-8, non-empty (ingestion rejects empty), condition literals contain no single quote or line break (not expressible in the grammar)",
+                    "a bare PrepareFlush is always completed by a flush before a restart (database.Close waits for a running flush)",
+                    "fresh database name per case (lindb leaks the per-database query pools; same-name pools share the workers_alive gauge)",
+                    "all points at one timestamp, value 1 (point counts identify double counting)"],
+    "tests": [
+        {"name": "TestTagFilter", "quick": 800, "thorough": {"checks": 3000, "shards": 8}},
+        {"name": "TestTagFilterMultiShard", "quick": 600, "thorough": {"checks": 2500, "shards": 6}},
+        {"name": "TestTagFilterManySeries", "thorough": {"checks": 10, "shards": 6, "timeout": 3000}},
+        {"name": "TestOracleExamples", "quick": {}, "thorough": {}},
+        {"name": "TestRegression_.*", "quick": {}, "thorough": {}},
+    ],
+}
